@@ -22,6 +22,12 @@ DSL_NAMES = {"forall", "exists", "forall_range", "exists_range", "forall_keys", 
              "opt_val", "str_of_int", "type_name", "str_of_type", "result_is_fresh", "uf"}
 
 
+def _mentions_any(t) -> bool:
+    if t == T.ANY:
+        return True
+    return any(_mentions_any(a) for a in t.args if isinstance(a, T.Ty))
+
+
 def _const_eval(node):
     """literal_eval that also accepts dict(key=value, ...)"""
     if isinstance(node, ast.Call) and isinstance(node.func, ast.Name) and node.func.id == "dict" and not node.args:
@@ -191,7 +197,17 @@ class SpecSet:
                 return s
             if s.startswith("opaque:"):
                 return T.Opaque(s[7:])
-            return w.resolve_ann(ast.parse(s, mode="eval").body, m or mod)
+            node = ast.parse(s, mode="eval").body
+            # a type name is looked up in the module each spec file declares (MODULE = ...)
+            cands = [m] if m else [x for x in dict.fromkeys(self.default_module.values()) if x] + [mod]
+            best = None
+            for cm in cands:
+                r = w.resolve_ann(node, cm)
+                if best is None:
+                    best = r
+                if not _mentions_any(r):
+                    return r
+            return best
 
         for (cls, fld), s in self.field_types_src.items():
             w.field_types[(cls, fld)] = ty(s)
